@@ -308,9 +308,7 @@ BODYSETS = {
     ],
     "util": [
         ("escape_assertion", "src/util.rs", fnre("escape_assertion")),
-        ("remove_comment", "src/util.rs", fnre("remove_comment")),
         ("escape_eval", "src/util.rs", fnre("escape_eval")),
-        ("csv_field", "src/util.rs", fnre("csv_field")),
         ("parse_csv_line", "src/util.rs", fnre("parse_csv_line")),
         ("config_parse_buffer", "src/config.rs", fnre("parse_buffer", True)),
         ("config_add_config", "src/config.rs", fnre("add_config")),
@@ -318,7 +316,8 @@ BODYSETS = {
     ],
     "fmap": [
         (n, "src/model/function_map.rs", r"pub\s+" + fnre(n)) for n in
-        ["key_match", "key_get", "key_match2", "key_get2", "key_match3", "key_get3", "key_match4", "key_match5", "regex_match"]
+        [  # key_match / key_get are TRANSLATED (tools/rs2coq.py, PcStrFnGen.v), not hash-pinned
+         "key_match2", "key_get2", "key_match3", "key_get3", "key_match4", "key_match5", "regex_match"]
     ],
 }
 
